@@ -16,6 +16,7 @@ import (
 	"path/filepath"
 	"reflect"
 	"regexp"
+	"sort"
 	"strconv"
 	"strings"
 	"text/template"
@@ -319,6 +320,15 @@ func (c *RootConfig) Initialize(ctx context.Context) error {
 		}
 	}
 
+	// A sub-package inherits from the first recursive package that reaches it.
+	// Visit the deepest packages first so that the nearest recursive ancestor
+	// wins, independent of map iteration order.
+	sort.Slice(recursivePackages, func(i, j int) bool {
+		if len(recursivePackages[i]) != len(recursivePackages[j]) {
+			return len(recursivePackages[i]) > len(recursivePackages[j])
+		}
+		return recursivePackages[i] < recursivePackages[j]
+	})
 	for _, recursivePackageName := range recursivePackages {
 		pkgLog := log.With().Str(logging.LogKeyPackagePath, recursivePackageName).Logger()
 		pkgCtx := pkgLog.WithContext(ctx)
